@@ -15,7 +15,8 @@ Definition aval (e : env) (a : atom) : bool :=
 
 Inductive cond :=
 | CTrue | CFalse | CUnknown | CAtom (a : atom) | CNot (c : cond) | CAnd (a b : cond) | COr (a b : cond)
-| CFlag (name : string).   (* a named flag of the executor (ce.isView): unknown to the context analysis *)
+| CFlag (name : string)    (* a named flag of the executor (ce.isView): unknown to the context analysis *)
+| CUnknownAt (pos : string).  (* CUnknown carrying the source position and text of the condition (for reports) *)
 
 (** three-valued evaluation: None = not determined by the atoms *)
 Fixpoint ceval (e : env) (c : cond) : option bool :=
@@ -24,6 +25,7 @@ Fixpoint ceval (e : env) (c : cond) : option bool :=
   | CFalse => Some false
   | CUnknown => None
   | CFlag _ => None
+  | CUnknownAt _ => None
   | CAtom a => Some (aval e a)
   | CNot c => option_map negb (ceval e c)
   | CAnd a b =>
